@@ -369,8 +369,63 @@ func (r *Reg) StrLit(s string) *Term {
 		n = fmt.Sprintf("lit_%s_%08x", sanitize(trunc(s, 12)), h.Sum32())
 		r.lits[s] = n
 		r.litOrd = append(r.litOrd, s)
+		r.sprintfAxiom(s, n)
 	}
 	return mk("Str", n)
+}
+
+// sprintfAxiom: a format made of literal text and %s verbs only, applied to strings, is their concatenation with the
+// text (assumed of package fmt). Stated once per such literal; only relevant to queries that format with it.
+func (r *Reg) sprintfAxiom(format, name string) {
+	var parts []string // literal pieces; a verb sits between consecutive pieces
+	cur := ""
+	nverbs := 0
+	for i := 0; i < len(format); i++ {
+		if format[i] != '%' {
+			cur += string(format[i])
+			continue
+		}
+		if i+1 >= len(format) || format[i+1] != 's' {
+			return
+		}
+		parts = append(parts, cur)
+		cur = ""
+		nverbs++
+		i++
+	}
+	parts = append(parts, cur)
+	if nverbs == 0 || nverbs > 4 {
+		return
+	}
+	r.SeqSort("Iface")
+	r.DeclFunc("fmt_sprintf", []string{"Str", "Seq_Iface"}, "Str")
+	tag := r.Tag(types.Typ[types.String])
+	var bs []string
+	seq := ""
+	var pieces []string
+	for k := 0; k < nverbs; k++ {
+		v := fmt.Sprintf("a%d", k)
+		bs = append(bs, "("+v+" Str)")
+		el := fmt.Sprintf("(one_Iface (iface %d %s))", tag, r.Box(mk("Str", v)).S)
+		if seq == "" {
+			seq = el
+		} else {
+			seq = "(cat_Iface " + seq + " " + el + ")"
+		}
+		if parts[k] != "" {
+			pieces = append(pieces, r.StrLit(parts[k]).S)
+		}
+		pieces = append(pieces, v)
+	}
+	if parts[nverbs] != "" {
+		pieces = append(pieces, r.StrLit(parts[nverbs]).S)
+	}
+	rhs := pieces[0]
+	for _, p := range pieces[1:] {
+		rhs = "(scat " + rhs + " " + p + ")"
+	}
+	lhs := "(fmt_sprintf " + name + " " + seq + ")"
+	r.Axiom(fmt.Sprintf("(assert (forall (%s) (! (= %s %s) :pattern (%s))))", strings.Join(bs, " "), lhs, rhs, lhs))
 }
 
 func trunc(s string, n int) string {
